@@ -246,6 +246,13 @@ func init() {
 			}
 			o.count("ordering=" + ordering)
 			ds := draws(seed, nc+2)
+			if jr, jmin, jmax, okJ := d1CondFromJSON(pr); okJ {
+				mj := m
+				mj.Stage = "split-props-decoding"
+				mj.GoOut = J{"ratio": cond.Ratio, "min": cond.Min, "max": cond.Max}
+				o.Oracle(mj, jr == cond.Ratio && jmin == cond.Min && jmax == cond.Max,
+					"the decoded split condition is not the one the props state (ratio / min / max with the documented defaults)")
+			}
 
 			// --- split-validate (Parse) and split (on the declared order)
 			var pmsg string
